@@ -1,0 +1,22 @@
+//go:build verif
+
+// Machine-checked contracts (comment-only; compiled only under the build tag "verif").
+// C06: the write that marks "Initialize is done" (the control annotation on the Deployment, which makes the next
+// reconcile skip Initialize) comes after every other step has succeeded, so a crash or an API error in the middle
+// leaves a state from which Initialize is simply run again.
+package deployment
+
+//@ fact stableRSProtected
+
+//@ func (*realController).patchStableRSMinReadySeconds
+//@ props C06
+//@ sets @stableRSProtected := result == nil
+
+//@ func (*realController).patchDeployment
+//@ props C06
+//@ requires marker_after_hpa: @hpaDisabled
+//@ requires marker_after_rs: @stableRSProtected
+
+//@ func (*realController).Initialize
+//@ props C06
+//@ requires rc != nil && release != nil
